@@ -171,6 +171,9 @@ class NegatedIntercept:
     def __eq__(self, other):
         return isinstance(other, type(self))
 
+    def __hash__(self):
+        return hash(self.name)
+
     def __or__(self, other):
         raise ValueError("At least include an intercept in '|' operation")
 
